@@ -277,9 +277,11 @@ def model_save_quantized_weights(model, filename=None, custom_objects={}):
         ws = layer.get_weights()
       elif isinstance(layer, QBidirectional):
         # Each direction reports [kernel, recurrent, bias, state] quantizers; the
-        # state quantizer has no weight.
-        qs = (layer.forward_layer.get_quantizers()[:-1] +
-              layer.backward_layer.get_quantizers()[:-1])
+        # state quantizer has no weight, and neither has the bias quantizer of
+        # a layer built with use_bias=False.
+        qs = []
+        for direction in [layer.forward_layer, layer.backward_layer]:
+          qs += direction.get_quantizers()[:len(direction.get_weights())]
         ws = layer.get_weights()
       else:
         qs = layer.get_quantizers()
